@@ -29,7 +29,7 @@ ASSUMPTIONS = [
   "the exclusive stop bound of a slice is sized like an index by the checker (x[1:32] on a 32-bit signal gives the literal 32 "
   "five bits); this convention is accepted: stop-1 must fit",
 ]
-QUICK_S = 80
+QUICK_S = 240
 THOROUGH_S = 1200
 
 compiled_re = re.compile('( *(@|def))')
